@@ -592,6 +592,10 @@ func (i *Interpreter) ProcessFetch() error {
 	if i.ctx.BackendRequest == nil {
 		return exception.System("No backend determined on FETCH")
 	}
+	// e.g. a director assigned to req.backend in vcl_miss or vcl_pass: the request has been created for another backend
+	if i.ctx.Backend == nil || i.ctx.Backend.Value == nil {
+		return exception.Runtime(nil, "No backend determined in FETCH")
+	}
 
 	// Send request to backend
 	var err error
